@@ -1,6 +1,6 @@
 (* C04 - Rewind exactly undoes steps. Statements only (proofs in SessionProofs.v / FrameProofs.v).
    Model: BV.Session (StepScript(InterpreterEnv&) with its snapshot vectors, RewindScript, Instance::rewind). *)
-From BV Require Import Base ScriptNum Script Interp Session FrameProofs SessionProofs.
+From BV Require Import Base ScriptNum Script Interp Session FrameProofs SessionProofs HistoryProofs.
 Local Open Scope Z_scope.
 
 Section C04.
@@ -37,9 +37,20 @@ Proof. exact rewind_refused_at_start. Qed.
 Theorem C04_step_frame : forall e pc local,
   let r := step_script low_s c e pc local in framed e (fst (fst r), snd r).
 Proof. exact (step_script_framed low_s c). Qed.
+(* every interleaving of successful steps and accepted rewinds - any length, any order - ends in the state reached by the net number of
+   steps alone, so the state after a history depends on nothing but (steps minus rewinds) *)
+Theorem C04_interleaving_is_net_steps : forall v0 v n,
+  steps_and_rewinds low_s tap_tweak_ok sha256 c v0 v n -> steps_only low_s tap_tweak_ok sha256 c v0 v n.
+Proof. exact (interleaving_is_net low_s tap_tweak_ok sha256 c). Qed.
+
+Theorem C04_history_independent : forall v0 v1 v2 n,
+  steps_and_rewinds low_s tap_tweak_ok sha256 c v0 v1 n -> steps_and_rewinds low_s tap_tweak_ok sha256 c v0 v2 n -> v1 = v2.
+Proof. exact (history_independent low_s tap_tweak_ok sha256 c). Qed.
 End C04.
 
 Print Assumptions C04_rewind_undoes_step.
 Print Assumptions C04_rewind_from_done.
 Print Assumptions C04_rewind_refused.
 Print Assumptions C04_step_frame.
+Print Assumptions C04_interleaving_is_net_steps.
+Print Assumptions C04_history_independent.
